@@ -129,7 +129,7 @@ def k2(ctx):
         opens = _open_events(p.trace)
         rv = p.outcome[1]
         reads = [e for e in p.trace if e.kind == 'MCALL' and e.d['name'] == 'read']
-        loads = [e for e in p.trace if e.kind == 'EXT' and e.d['name'] == 'pickle.load']
+        loads = [e for e in p.trace if e.kind == 'EXT' and e.d['name'] in ('pickle.load', 'pickle.loads')]
         R.setdefault(m, []).append({'open': _open_recipe(opens[-1]) if opens else None, 'rv': rv, 'reads': reads,
                                     'loads': loads, 'path': p, 'opens': opens})
 
